@@ -24,6 +24,10 @@ CHECKS = {
    text="Bounded exhaustive exploration on the implementation: precompile target x 12 reaches (4 call kinds from depth 1 and 2, 4 host entry points) x forks around Berlin x 20 payload lengths x ABI head/length words from a boundary alphabet (<=k deviations from a well-formed layout) x host answers x gas around the fee, plus every ordered pair of reaches as a two-call history (same EVM / fresh EVMs, distinct callers); recording host callbacks are compared with a reference ABI decoder over unbounded integers, and fee, pass-through, rejection and attribution rules are checked on every execution.",
    tech="stateless bounded-exhaustive enumeration of inputs and two-step call histories executed on the real code, judged against a reference decoder (model in the implementation language)",
    note="Short-payload leniency of the three precompiles is a known finding (known_findings.txt), every other deviation is reported."),
+ "C09": dict(cat="model_checking", ref="DESIGN.md §4 C09",
+   text="Complete enumeration on the implementation: storage words x every (offset, width) in ([0,34] + 4 large boundaries)^2 x 7 slot numbers, and every string length 0..130 x 4 content patterns x slots plus invalid head words, journaled by generated programs run directly, statically, through DELEGATECALL/CALLCODE (code account holding complemented words) and right after an SSTORE; the recorded bytes, read back by name and by slot, must equal a reference Solidity storage-layout decoder applied to the executing contract's storage at the journal step; invalid operands/encodings must fail the frame and record nothing.",
+   tech="bounded exhaustive enumeration of inputs executed on the real code, compared with a reference decoder (model in the implementation language)",
+   note="Strings above 130 bytes and words outside the alphabet are not covered."),
 }
 
 NOT_YET = {}
